@@ -27,6 +27,7 @@ func c07(c *Ctx) {
 	c07R4(c)
 	signTolerantRule(c, "R5")
 	c07R6(c)
+	c07R7(c)
 }
 
 func c07R1(c *Ctx) {
@@ -237,4 +238,23 @@ func c07R6(c *Ctx) {
 		ok := f.HasGuard(st, func(g string) bool { return strings.HasPrefix(g, "gemmill/types.(*VoteSet).HasTwoThirdsMajority(gemmill/types.NewVoteSet(") })
 		c.R.Ob(rule, "LastCommit-installed⊣has+2/3", ok, c.Pos(st), fname(f), "cs.LastCommit must be a set with a +2/3 majority")
 	}
+}
+
+// c07R7: the WAL reader returns whole records whatever their length.
+func c07R7(c *Ctx) {
+	rule := c.R.Rule("R7", "unbounded record length on read: GroupReader.ReadLine reads a line with bufio's ReadBytes/ReadString (which grow), never with ReadSlice/ReadLine (which fail with ErrBufferFull beyond the 4 KiB buffer) — WAL records holding block parts are far longer than the buffer", 1)
+	f := c.Anchor(rule, "gemmill/modules/go-autofile.(*GroupReader).ReadLine")
+	if f == nil {
+		return
+	}
+	good, bad := 0, ""
+	for _, ci := range f.Calls() {
+		switch cfgxCallee(ci) {
+		case "bufio.(*Reader).ReadBytes", "bufio.(*Reader).ReadString":
+			good++
+		case "bufio.(*Reader).ReadSlice", "bufio.(*Reader).ReadLine":
+			bad = cfgxCallee(ci) + " at " + c.Pos(ci)
+		}
+	}
+	c.R.Ob(rule, "ReadLine:growing-read", good >= 1 && bad == "", c.P.Pos(f.F.Pos()), fname(f), "a record longer than the reader's buffer must still be returned whole: replay (and the #HEIGHT search) otherwise stop at the first long record and everything after it — votes, lock — is lost; "+bad)
 }
